@@ -69,8 +69,8 @@ func (f *DatagramFrame) MaxDataLen(maxSize protocol.ByteCount, version protocol.
 		return 0
 	}
 	maxDataLen := maxSize - headerLen
-	if f.DataLenPresent && quicvarint.Len(uint64(maxDataLen)) != 1 {
-		maxDataLen--
+	if f.DataLenPresent {
+		maxDataLen = shrinkForLengthField(maxDataLen)
 	}
 	return maxDataLen
 }
